@@ -49,14 +49,19 @@ def LoadAfterInsert (sym : Bool) : Prop :=
       loadLocalKey O ⟨name, ⟨«meta», none, some data⟩, alg, ths, tags⟩ = .ok k
 
 /-- FALSE on the current tree (D15): `from_jwk_any` has no `oct` branch. -/
-theorem load_after_insert_current_false : ¬ LoadAfterInsert symmetricJwkImport :=
+theorem load_after_insert_false_without_oct_import : ¬ LoadAfterInsert false :=
   Lemmas.load_after_insert_false
+
 
 /-- it holds exactly when symmetric JWKs can be imported -/
 theorem load_after_insert_iff_import (sym : Bool) : LoadAfterInsert sym ↔ sym = true := by
   cases sym with
   | true => exact ⟨fun _ => rfl, fun _ => Lemmas.load_after_insert_true⟩
   | false => exact ⟨fun h => absurd h Lemmas.load_after_insert_false, fun h => by cases h⟩
+
+/-- for the current source (the flag is read from alg/any.rs on every run) -/
+theorem load_after_insert_current : LoadAfterInsert symmetricJwkImport ↔ symmetricJwkImport = true :=
+  load_after_insert_iff_import symmetricJwkImport
 
 /-- D15 stated outright: without an `oct` branch, no stored entry ever loads as a symmetric key. -/
 theorem symmetric_key_never_loads {K : Type} (O : KeyOps K) (hO : O.Lawful false) (k : K) (hsym : isSymmetric (O.alg k) = true)
@@ -123,8 +128,16 @@ def FetchAllKeysExact (fixed : Bool) : Prop :=
     replace this theorem by `FetchAllKeysExact prefixAfterTilde := Lemmas.fetch_all_keys_exact_fixed`; nothing else
     in this file depends on the value of the constant.)  Witness (Lemmas.wDb): one key with the plaintext user tag `t = v`; the filter
     `{"~t": "v"}` is turned into the ENCRYPTED name `user:~t` and selects nothing, the reference selects the key. -/
-theorem fetch_all_keys_exact_current_false : ¬ FetchAllKeysExact prefixAfterTilde :=
+theorem fetch_all_keys_exact_false_prefix_before_tilde : ¬ FetchAllKeysExact false :=
   Lemmas.fetch_all_keys_exact_false
+
+/-- with the prefix inserted after the `~` (the repair) the full statement holds -/
+theorem fetch_all_keys_exact_prefix_after_tilde : FetchAllKeysExact true :=
+  Lemmas.fetch_all_keys_exact_fixed
+
+/-- for the current source (the flag is read from src/store.rs on every run) -/
+theorem fetch_all_keys_exact_current (h : prefixAfterTilde = true) : FetchAllKeysExact prefixAfterTilde :=
+  h ▸ Lemmas.fetch_all_keys_exact_fixed
 
 /-- The part that holds on the current tree: filters over encrypted names only (`encName`: no leading `~`). -/
 theorem fetch_all_keys_exact_partial (like : Bytes → Bytes → Bool) (C : Cbor) (db : Db) (now : Int) (s : Sess)
